@@ -298,6 +298,7 @@ inductive Val
   | bytes (bs : List Nat)         -- utf8 / binary / views / fixed size binary
   | list (vs : List Val)          -- list / large list / fixed size list / list view
   | struct (vs : List Val)
+  | union (tid : Int) (v : Val)   -- union slot with a valid child (a null child makes the slot null)
 deriving Repr, BEq, Inhabited
 
 mutual
@@ -313,6 +314,10 @@ def cmpVal (o : SortOptions) : Val → Val → Ordering
   | .bytes a, .bytes b => applyDesc o.descending (bytesCmp a b)
   | .list a, .list b => applyDesc o.descending (cmpVals (childOpts o) a b)
   | .struct a, .struct b => applyDesc o.descending (cmpVals (childOpts o) a b)
+  | .union t a, .union s b =>   -- `compare_union`: type ids first, then the child comparator
+    applyDesc o.descending (match compare t s with
+      | .eq => cmpVal (childOpts o) a b
+      | r => r)
   | _, _ => .eq
 /-- element loop of `compare_list` / `compare_struct` (zip, then lengths) -/
 def cmpVals (o : SortOptions) : List Val → List Val → Ordering
@@ -332,6 +337,37 @@ def valueCmp (o : SortOptions) (a b : Val) : Ordering := cmpVal (childOpts o) a 
 def Val.toOpt : Val → Option Val
   | .null => none
   | v => some v
+
+/-! ### `in_list` / `in_list_utf8` (arrow-ord/src/comparison.rs) and native comparisons -/
+
+/-- IEEE `==` on bit patterns of a `w`-bit float (what `f32/f64/f16: PartialEq` is):
+NaN is unequal to everything, `+0 == -0`. -/
+def ieeeEq (w a b : Nat) : Bool :=
+  let m := if w = 16 then 10 else if w = 32 then 23 else 52
+  let e := w - 1 - m
+  let isNaN := fun x : Nat => (x / 2 ^ m) % 2 ^ e == 2 ^ e - 1 && x % 2 ^ m != 0
+  let isZero := fun x : Nat => x % 2 ^ (w - 1) == 0
+  !isNaN a && !isNaN b && (a == b || (isZero a && isZero b))
+
+/-- the `==` of the native type used by `in_list` (`left.value(i) == list.value(j)`) -/
+def nativeEq : Val → Val → Bool
+  | .flt w a, .flt _ b => ieeeEq w a b
+  | a, b => a == b
+
+/-- one row of `in_list`: both slots valid and some valid list element `==` the value;
+never null, false when either side is null -/
+def inListRow (x l : Val) : Bool :=
+  match x, l with
+  | .null, _ => false
+  | _, .list es => es.any (fun e => match e with
+    | .null => false
+    | e => nativeEq x e)
+  | _, _ => false
+
+/-- `ArrowNativeTypeOp::{compare,is_eq,is_ne,is_lt,is_le,is_gt,is_ge}` from the verdict:
+the default methods are `compare(rhs).is_xx()`, `is_ne = !is_eq` -/
+def nativeOps (o : Ordering) : List Bool :=
+  [o == .eq, !(o == .eq), o == .lt, o != .gt, o == .gt, o != .lt]
 
 /-! ### a concrete sort for the driver (any function meeting the contract would do) -/
 
